@@ -838,7 +838,7 @@ func c15R3R4(p *core.Program, r *core.Report, evalCWV, numCmp, dateCmp, textCmp 
 		} else {
 			r.Errorf("FieldValue.QueryValue not found")
 		}
-		r.Require("presence_guards", nG, 5)
+		r.Require("presence_guards", nG, 3)
 	}
 	nP := 0
 	for _, sit := range core.SortedKeys(produced) {
